@@ -84,11 +84,15 @@ def _ref_step(pos, length, op, arg):
     return length + arg, length + arg
 
 
-def _program(pack_size, offset, length, prog):
+def _program(pack_size, offset, length, prog, wrap=False):
     mf = ModelFile(pack_size) if W.MODE == 'model' else RealFile(pack_size)
     try:
         fh = mf if W.MODE == 'model' else mf.f
         r = PackedObjectReader(fh, offset, length)
+        if wrap:  # the progress-callback wrapper must be transparent
+            from disk_objectstore.utils import CallbackStreamWrapper
+
+            r = CallbackStreamWrapper(r, callback=lambda action, value: None, total_length=0)
         pos = 0
         for op, a in prog:
             npos, exp = _ref_step(pos, length, op, a)
@@ -151,3 +155,14 @@ def prog_reach(pack_size: int, offset: int, length: int, op1: int, a1: int, op2:
     """
     ok = _program(pack_size, offset, length, ((op1, a1), (op2, a2)))
     return not (ok and op1 == 4 and op2 == 0 and a1 < 0 and 0 <= length + a1 < length and a2 > 0)
+
+
+def cbprog2(pack_size: int, offset: int, length: int, op1: int, a1: int, op2: int, a2: int) -> bool:
+    """
+    The same programs through CallbackStreamWrapper (the stream handed to the write paths when a progress callback is
+    given): it must be transparent.
+    pre: 0 <= offset and 0 <= length and offset + length <= pack_size <= 2000000
+    pre: 0 <= op1 <= 4 and 0 <= op2 <= 4 and -2000100 <= a1 <= 2000100 and -2000100 <= a2 <= 2000100
+    post: _
+    """
+    return _program(pack_size, offset, length, ((op1, a1), (op2, a2)), True)
